@@ -46,6 +46,8 @@ def cfgs(tier):
         dict(base, sweeper='imex_1st_order', M=[2], NP=2, maxiter=2, restol=-1.0, blocks=2),
         # stopping by increment: a convergence controller that registers extra level status variables (increment, embedded estimate) is loaded
         dict(base, M=[2], NP=1, maxiter=2, restol=-1.0, e_tol=2e-2, blocks=2),
+        # a preconditioner that depends on the sweep index, several sweeps per iteration (sweeper state that must not leak between runs / blocks)
+        dict(base, qd='MIN-SR-FLEX', M=[2], NP=1, maxiter=2, restol=-1.0, blocks=2, nsweeps=2),
         # a user hook with an extended entry class
         dict(base, M=[2], NP=2, maxiter=2, restol=-1.0, blocks=2, exthook=True),
     ]
